@@ -441,6 +441,8 @@ RULES = [
     Rule('C15.T1', '_Env.merge / extend tables', t1_env_merge, 6, 'T'),
     Rule('C15.T2', 'two spellings are two identifiers: the base / count split of a name is undone by printing it', identifier_spelling_rule, 3, 'T'),
     Rule('C15.D2', 'Reachability transfer functions and error checks', d2_reachability, 16, 'D,T'),
+    Rule('C15.D6', 'a program variable spelled like a runtime name never becomes a local that captures the runtime\'s own references (= C04.F4)',
+         lambda ctx: __import__('sa.props.c04', fromlist=['f4_runtime_names']).f4_runtime_names(ctx), 35, 'D'),
     Rule('C15.D5', 'what the checker takes as bound by `with .. as k` the compiled code binds on every way into the block', d5_with_target_bound, 1, 'D'),
     Rule('C15.D4', 'a callee name the function binds is checked like a variable; captured names never include the function\'s own locals', d4_callee_names, 7, 'D,P'),
     Rule('C15.D3', 'an arm the front end takes as terminated (return, if/else of those, `with` around one) is dropped from the merge of definitions', d3_terminated_arms, 1, 'D'),
